@@ -1447,7 +1447,7 @@ class ASTGeneratedColumn(ASTBase):
 
     def source(self, sql_type: SQLType = SQLType.DEFAULT) -> str:
         """返回语法节点的 SQL 源码"""
-        return f"GENERATED ALWAYS AS ({self.expression.source(sql_type)}) {self.save_mode.name}"
+        return f"GENERATED ALWAYS AS ({source_with_parenthesis(self.expression, sql_type, 8)}) {self.save_mode.name}"
 
 
 @dataclasses.dataclass(slots=True, frozen=True, eq=True)
